@@ -606,6 +606,7 @@ func RunC13(run *ev.Run) {
 		}
 	}
 	total["evaluations"] += RunDeclShapes(run)
+	total["evaluations"] += RunBlockedOutputs(run)
 	run.Cov["recursive_and_directive_evaluations"] = total["evaluations"]
 	run.Cov["evaluations"] = run.Cov["evaluations"].(int) + total["evaluations"]
 	run.Cov["states"] = run.Cov["states"].(int) + total["evaluations"]
@@ -613,7 +614,7 @@ func RunC13(run *ev.Run) {
 	run.Cov["directive_values"] = len(dirValues(map[bool]int{false: 2, true: 3}[tier == "thorough"]))
 	run.Cov["recursive_graph_scenarios"] = len(RecScenarios(tier))
 	run.Cov["method_shapes"] = len(methodShapes(tier))
-	run.Cov["rule"] = "(i) every ordered type pair of the full Go leaf alphabet (depth-bounded) under every setting vector; (i-b) every reachable struct graph with <=2 (thorough 3) named nodes and <=2 fields per node whose edges go through pointer, slice, map value or direct embedding, plus self-referential and mutually recursive named slice/map/pointer/array/func/chan types; (i-c) every ordered pair of the full depth-1 alphabet as a struct field under every other method shape (update, update with zero-value settings, default, default:update, error result with wrapErrors; with skipCopySameType / useZeroValueOnPointerInconsistency variants); (i-d) every declaration shape of a converter / variables block (generic, embedded, type-set, alias, unexported, variadic, unnamed/blank/colliding parameter names, grouped, function-typed variables with and without initial value, markers on wrong kinds) x output settings through the real CLI; (ii) every directive key (known, unknown, empty) x every value string of <=2 (thorough 3) tokens of the token menu at CLI, converter and method level of four base declarations (struct, update, enum, variables); each generation runs under recover() in a worker subprocess with watchdog: a panic, a worker crash (stack overflow) or a hang is a violation; failing runs must carry a non-empty diagnostic"
+	run.Cov["rule"] = "(i) every ordered type pair of the full Go leaf alphabet (depth-bounded) under every setting vector; (i-b) every reachable struct graph with <=2 (thorough 3) named nodes and <=2 fields per node whose edges go through pointer, slice, map value or direct embedding, plus self-referential and mutually recursive named slice/map/pointer/array/func/chan types; (i-c) every ordered pair of the full depth-1 alphabet as a struct field under every other method shape (update, update with zero-value settings, default, default:update, error result with wrapErrors; with skipCopySameType / useZeroValueOnPointerInconsistency variants); (i-d) every declaration shape of a converter / variables block (generic, embedded, type-set, alias, unexported, variadic, unnamed/blank/colliding parameter names, grouped, function-typed variables with and without initial value, markers on wrong kinds) x output settings through the real CLI; (i-e) output locations taken by something else (a directory at the file path, a file at the directory path): the run terminates with a diagnostic; (ii) every directive key (known, unknown, empty) x every value string of <=2 (thorough 3) tokens of the token menu at CLI, converter and method level of four base declarations (struct, update, enum, variables); each generation runs under recover() in a worker subprocess with watchdog: a panic, a worker crash (stack overflow) or a hang is a violation; failing runs must carry a non-empty diagnostic"
 }
 
 func crashSite(stderr string) string {
